@@ -50,6 +50,7 @@ Inductive kind :=
 | KErrCalc (X : tensor F) (R : nat) (w : option (list F)) (fs : list (tensor F)) (M : tensor F) (n : nat) (rep : F)
 | KTucker (X G : tensor F) (fs : list (tensor F)) (mask : option (tensor F)) (rep : F)
 | KHooi (X G : tensor F) (rep : F)
+| KP2Len (ls normalize : bool) (n_iter_max n_reported : nat)
 | KSparsify (t : tensor F) (card : nat) (out : tensor F)
 | KTR (X : tensor F) (cores : list (tensor F)) (rep : F)
 | KParafac2 (slices : list (tensor F)) (w : option (list F)) (A B C : tensor F) (Ps : list (tensor F)) (rep : F)
@@ -84,6 +85,10 @@ Definition agree_kind (k : kind) : bool :=
   | KErrCalc X R w fs M n rep => rel_close (err_shortcut_with Op X R w fs M n) rep
   | KTucker X G fs mask rep => rel_close (err_explicit Op X (tucker_tensor_entry Op G fs) None mask) rep
   | KHooi X G rep => rel_close_abs (err_hooi Op X G) rep
+  | KP2Len ls nrm n n_rep =>
+      (* PARAFAC2 loop skeleton (no stop): one value per iteration, line-search iterations included *)
+      let orc := @mkP2 unit (fun _ st => st) (fun _ _ st => st) (fun _ => true) (fun st => st) (fun _ => false) in
+      Nat.eqb (length (snd (@p2_loop unit unit (fun _ => tt) orc ls nrm false n 0%nat tt nil))) n_rep
   | KSparsify t card out =>
       let m := sparsify Op card t in
       nat_list_eqb (shape m) (shape out) && q_list_eqb (map toQ (data m)) (map toQ (data out))
